@@ -605,6 +605,38 @@ func WorkerIO[I any, O any](args []string, f func(in I, dir string) O) {
 	}
 }
 
+// JudgeTraceChunked is JudgeTrace over consecutive slices of recs of at most maxBytes of JSON each, so that the
+// memory TLC needs to deserialise a trace stays bounded (verdicts refer to records by their own "case" field).
+func (c *Ctx) JudgeTraceChunked(res *Result, module string, recs []any, maxBytes int) ([]map[string]any, error) {
+	var bad []map[string]any
+	start, size := 0, 0
+	flush := func(end int) error {
+		if end == start {
+			return nil
+		}
+		b, err := c.JudgeTrace(res, module, recs[start:end])
+		if err != nil {
+			return err
+		}
+		bad = append(bad, b...)
+		start, size = end, 0
+		return nil
+	}
+	for i, r := range recs {
+		b, _ := json.Marshal(r)
+		if size > 0 && size+len(b) > maxBytes {
+			if err := flush(i); err != nil {
+				return nil, err
+			}
+		}
+		size += len(b)
+	}
+	if err := flush(len(recs)); err != nil {
+		return nil, err
+	}
+	return bad, nil
+}
+
 // JudgeTrace writes recs as a trace, runs a verdict-style trace spec and returns the failing verdicts.
 func (c *Ctx) JudgeTrace(res *Result, module string, recs []any) ([]map[string]any, error) {
 	trace := filepath.Join(c.Scratch, module+"-trace.ndjson")
